@@ -20,6 +20,10 @@ pub fn run_case(case: &SimCase, mon: Monitors) -> Run {
             Ok(w) => w,
             Err(e) => return Run { info, result: Err(format!("harness: {e}")) },
         };
+        if mon.model {
+            // the boot steps (view-0 timer) happened before the bank existed; models start from the next step's snapshot
+            w.model = Some(Default::default());
+        }
         let mut result = check_monitors(&w, &mon, 0);
         let mut checked = w.steps.len();
         if result.is_ok() {
@@ -36,6 +40,9 @@ pub fn run_case(case: &SimCase, mon: Monitors) -> Run {
             }
         }
         summarize(&w, &mut info);
+        if let Some(b) = &w.model {
+            info.model_compared = b.compared;
+        }
         w.shutdown().await;
         Run { info, result }
     })
@@ -298,9 +305,10 @@ pub fn c03(env: &Env) -> i32 {
 // C05 view changes justified / monotone / self-justifying (model-free invariants)
 
 fn c05_check(case: &SimCase, st: &mut Stats) -> Result<(), String> {
-    let run = run_case(case, Monitors { step_invariants: true, ..Default::default() });
+    let run = run_case(case, Monitors { step_invariants: true, model: true, ..Default::default() });
     record(st, &run.info);
     let i = &run.info;
+    st.count("steps_compared_with_reference_model", i.model_compared);
     st.count("deep_accepted_state_changes", i.accepted_deep as u64);
     st.count("deep_rejections", i.rejected_deep as u64);
     for k in &i.kinds_matrix {
